@@ -34,6 +34,9 @@ let run_all (p : M.program) (o : M.output) : string =
       "C03:" ^ (if dom then b2s (M.chk_C03 p o) else "-");
       "C04:" ^ (if dom then b2s (M.chk_C04 p o) else "-");
       "C06:" ^ (if dom then b2s (M.chk_C06 p o && M.chk_C06_scoped p o) else "-");
+      (* C07 for every leaf kind and statement position: the shape of every emitted tree is the shape
+         of the bracketed source expression (with C06: the tree itself) *)
+      "C07s:" ^ (if dom then b2s (M.chk_C07_shape p o) else "-");
       (* C19 speaks about every well-formed program (which must be accepted, C02): judged on the
          implementation's output even when the implementation reports errors *)
       "C19:" ^ (if wf then b2s (M.chk_C19_strict p o) else "-");
